@@ -49,6 +49,8 @@ type valWorld struct {
 	m    *valModel
 	path []string
 	pfx  string // clause prefix: "C13" or "C14"
+	// specBlocks: every block end is first executed on a throw-away branch (an aborted / replayed block execution)
+	specBlocks bool
 	// sigClass, when set, replaces the "val." signature prefix (C14 scenarios carry the plan's structural class)
 	sigClass string
 }
@@ -61,7 +63,7 @@ func (w *valWorld) sig(s string) string {
 }
 
 func (w *valWorld) fork() *valWorld {
-	return &valWorld{run: w.run, e: w.e.Branch(), m: w.m.clone(), path: append([]string(nil), w.path...), pfx: w.pfx, sigClass: w.sigClass}
+	return &valWorld{run: w.run, e: w.e.Branch(), m: w.m.clone(), path: append([]string(nil), w.path...), pfx: w.pfx, sigClass: w.sigClass, specBlocks: w.specBlocks}
 }
 
 func (w *valWorld) logf(f string, a ...interface{}) { w.path = append(w.path, fmt.Sprintf(f, a...)) }
@@ -255,6 +257,11 @@ func updatesString(ups []abci.ValidatorUpdate) string {
 func (w *valWorld) endBlock() bool {
 	run := w.run
 	l2 := w.e.L2
+	if w.specBlocks {
+		sb := l2.Branch()
+		sb.T = nil
+		_ = sb.EndBlock()
+	}
 	br := l2.EndBlock()
 	run.Evaluations++
 	h := l2.Ctx.BlockHeight()
